@@ -519,7 +519,7 @@ class GenSource:
         ops.append({"op": "set", "obj": o.k, "path": [], "value": {"obj": sid}, "via": via})
         return ops
 
-    def _resplit_scenario(self, w):
+    def _resplit_plain(self, w):
         """A struct nested by value in a live object, with two dynamic 1-D arrays of numbers of
         different lengths: an object of the part's class with the lengths exchanged (same total size,
         another split) is built and assigned to the nested field through ANOTHER handle of the holder
@@ -542,6 +542,23 @@ class GenSource:
                 pairs = [(a, b) for a in dyn for b in dyn if a[0] < b[0] and a[1] == b[1] and a[2] != b[2] and (a[2] * a[1]) % 8 == (b[2] * b[1]) % 8]
                 if pairs:
                     cands.append((o, p, t, n, pairs))
+        # ... or the object itself is such a struct: a copy of it is made, then the copy (or the source) takes a
+        # value with the lengths exchanged through its own kept handle: the other one must not notice
+        tops = []
+        for o in w.live_objs():
+            if sc[o.t]["k"] != "struct" or typegen.has_refs(sc, o.t) or o.hnd is None:
+                continue
+            dyn = []
+            for f in sc[o.t]["fields"]:
+                ft = sc[f[1]]
+                if ft["k"] == "array" and len(ft["shape"]) == 1 and ft["shape"][0] is None and sc[ft["item"]]["k"] == "sc":
+                    dyn.append((f[0], typegen.SC_SIZE[sc[ft["item"]]["t"]], len(o.node.f[f[0]].items)))
+            pairs = [(a, b) for a in dyn for b in dyn if a[0] < b[0] and a[1] == b[1] and a[2] != b[2]]
+            if pairs:
+                tops.append((o, [], o.t, o.node, pairs))
+        whole = bool(tops) and (not cands or rng.random() < 0.4)
+        if whole:
+            cands = tops
         if not cands:
             return None
         o, p, t, n, pairs = rng.choice(cands)
@@ -559,6 +576,11 @@ class GenSource:
                 d[f[0]] = v
         nid = self.new_id()
         ops = [{"op": "construct", "type": t, "value": {"d": d}, "place": {"buf": o.bufid if rng.random() < 0.7 else pick_buf(w, rng), "how": "default"}, "form": "single", "id": nid}]
+        if whole:
+            cid = self.new_id()
+            ops.insert(0, {"op": "copy", "obj": o.k, "place": rng.choice([{"buf": o.bufid, "how": "default"}, {"buf": pick_buf(w, rng), "how": "default"}, {"ctx": 0}]), "id": cid})
+            ops.append({"op": "set", "obj": cid if rng.random() < 0.6 else o.k, "path": [], "value": {"obj": nid}, "via": "handle"})
+            return ops
         ops.append({"op": "set", "obj": o.k, "path": p, "value": {"obj": nid}, "via": "view" if rng.random() < 0.7 else self._via(o)})
         # ... and a leaf of the part is then written through the kept handle (where a stale cached view would misplace it)
         leaf = [f for f in sc[t]["fields"] if f[0] in newlen and newlen[f[0]] > 0]
@@ -575,7 +597,7 @@ class GenSource:
                 self.pending = sc_[1:]
                 return sc_[0]
         if rng.random() < 0.15 and not getattr(self, "pending", None):
-            sc_ = self._resplit_scenario(w)
+            sc_ = self._resplit_plain(w)
             if sc_:
                 self.pending = sc_[1:]
                 return sc_[0]
